@@ -207,3 +207,15 @@ Theorem C06_checked_predicates_decide_spec :
      (forall from to, plain_range_okb_tbl (pos_table src) (length src) from to = plain_range_okb src from to)).
 Proof. exact (conj range_okb_spec (conj name_range_okb_spec (conj plain_range_okb_spec fast_checks_equal))). Qed.
 Print Assumptions C06_checked_predicates_decide_spec.
+
+(* ------------------------------------------------------------------------------------------------ *)
+(* Numbers recorded by the real parser (uint32 line / column that may have wrapped around, int64 index) are cut off at
+   length src + 1 before they reach the extracted predicates (extract/X06.v: numc); the verdict is the same as on the
+   numbers themselves, because every component of a faithful position of an index inside the source is <= length src. *)
+Theorem C06_checked_predicates_saturate :
+  forall src,
+    (forall v from to, range_okb src (mkexpr v (sat_pos (length src) from) (sat_pos (length src) to)) = range_okb src (mkexpr v from to)) /\
+    (forall name from to, name_range_okb src name (sat_pos (length src) from) (sat_pos (length src) to) = name_range_okb src name from to) /\
+    (forall from to, plain_range_okb src (sat_pos (length src) from) (sat_pos (length src) to) = plain_range_okb src from to).
+Proof. exact saturated_checks_equal. Qed.
+Print Assumptions C06_checked_predicates_saturate.
